@@ -294,8 +294,7 @@ def d1(ctx, rep):
                   'the copula of a child edge is not selected on the conditional pseudo-observations of its own parents', construct='child edge selection input')
     # first trees: the two columns given to select_copula are the nodes that become L, R
     for clsn in ('CenterTree', 'DirectTree', 'RegularTree'):
-        from ..inline import inlined_view
-        fn = inlined_view(ctx, prog.cls(TREE + clsn).methods['_build_first_tree'])       # a shared "select, build, append" helper is the same construction
+        fn = prog.cls(TREE + clsn).methods['_build_first_tree']
         sel = [c for c in walk_no_nested(fn.node) if isinstance(c, ast.Call) and call_name(c) == 'select_copula']
         mk = [s for s in walk_no_nested(fn.node) if isinstance(s, ast.Assign) and isinstance(s.value, ast.Call) and (prog.resolve(fn.module, s.value.func) or '').endswith('tree.Edge')]
         if not sel or not mk:
